@@ -17,14 +17,14 @@ RULE = (
     "subset of {strict} x {passthrough} x inputs (known / unknown CURIEs and URIs, '', delimiter-free strings, the bare "
     "delimiter, arbitrary Unicode; arbitrary (prefix, identifier) pairs for the pair functions). One evaluation = one "
     "(converter, function, input) triple on which all mode combinations are related to the default call: default never "
-    "raises; passthrough returns the default value or the input unchanged; strict returns the default value or raises a "
+    "raises; passthrough returns the default value or the input unchanged; strict (with or without passthrough) returns the default value or raises a "
     "ConversionError / StandardizationError / NoCURIEDelimiterError instance; nothing else escapes. "
     "Non-trivial = the default result is None (failure path); distinct by hash of (records, delimiter, function, input)."
 )
 ASSUMPTIONS = [
     "metamorphic oracle between modes of the same function on the same input; values themselves are C01/C02's business",
-    "strict=True together with passthrough=True: the statement's two sentences overlap, so either a library error or the "
-    "unchanged input is accepted on the failure path (never None, never another exception type)",
+    "strict=True together with passthrough=True behaves as strict: every docstring defines passthrough as 'If true, strict "
+    "is false, and ... can't be ..., return the input', i.e. passthrough only applies to non-strict calls",
     "for expand_pair / expand_reference 'input unchanged' means the formatted CURIE prefix+delimiter+identifier, as documented",
 ]
 
@@ -151,10 +151,12 @@ def _check_one(c, d, fname, x, has_pt, unchanged, stats, unit):
             if (t, r) != ("ok", r0):
                 raise Violation(f"{fname}({x!r}, strict=True, passthrough=True) = {t}:{r!r} but default returns {r0!r}")
         else:
-            if t == "ok" and r != unchanged:
-                raise Violation(f"{fname}({x!r}, strict=True, passthrough=True) returned {r!r} on the failure path")
-            if t == "exc" and not isinstance(r, errs):
-                raise Violation(f"{fname}({x!r}, strict=True, passthrough=True) raised {type(r).__name__}")
+            # every docstring says "passthrough: If true, *strict is false*, and ... can't be ..., return the input":
+            # passthrough only applies to non-strict calls, so with both flags the call behaves as a strict one
+            if t == "ok":
+                raise Violation(f"{fname}({x!r}, strict=True, passthrough=True) returned {r!r} although the default call gives None (strict takes precedence)")
+            if not isinstance(r, errs):
+                raise Violation(f"{fname}({x!r}, strict=True, passthrough=True) raised {type(r).__name__}, not a library conversion/standardisation error")
     if r0 is None:
         stats.nontrivial(unit, "failure-path:" + fname)
     else:
